@@ -14,9 +14,12 @@
 #include "vguard.hpp"
 using namespace rtosc;
 
-struct Obj { int p; int q; float r; float s; };
+struct Obj { int p; int q; float r; float s; float pp; int sx; };
 #define rObject Obj
 static const Ports base = {
+    // look-alikes: ports whose names merely START with the name of a learnable parameter, declared before it, with another type and range
+    rParamF(pp, rLinear(0, 1), "look-alike of p"),
+    rParamI(sx, rLinear(0, 1000), "look-alike of s"),
     rParamI(p, rLinear(0, 127), "int 0..127"),
     rParamI(q, rLinear(-64, 63), "int -64..63"),
     rParamF(r, rLinear(-2.5, 10.25), "float"),
